@@ -307,6 +307,42 @@ fn text_rewrites(src: &str) -> Vec<(&'static str, String)> {
     out
 }
 
+/// the same program with consecutive plain statement lines joined by " : " on one line (block IF,
+/// SELECT, label, DATA and comment lines stay on lines of their own, and nothing follows a single-line IF)
+fn joined_lines(src: &str) -> Option<String> {
+    let alone = |l: &str| -> bool {
+        let u = l.trim().to_uppercase();
+        u.is_empty()
+            || u.ends_with(':')
+            || u.contains('\'')
+            || ["IF ", "ELSEIF", "ELSE", "END IF", "DATA", "REM", "SELECT CASE", "CASE", "END SELECT", "SUB ", "FUNCTION ", "END SUB", "END FUNCTION", "DECLARE", "ON ERROR", "RESUME"]
+                .iter()
+                .any(|k| u.starts_with(k))
+    };
+    let mut out: Vec<String> = vec![];
+    let mut open = false; // the last output line may take another statement
+    let mut joins = 0;
+    for l in src.lines() {
+        if alone(l) {
+            out.push(l.to_string());
+            open = false;
+        } else if open {
+            let last = out.last_mut().unwrap();
+            last.push_str(" : ");
+            last.push_str(l.trim());
+            joins += 1;
+        } else {
+            out.push(l.to_string());
+            open = true;
+        }
+    }
+    if joins == 0 {
+        None
+    } else {
+        Some(out.join("\n") + "\n")
+    }
+}
+
 pub fn run(args: &Args) {
     let mut rng = Rng::new(args.seed);
     let mut sum = Summary::new();
@@ -343,6 +379,24 @@ pub fn run(args: &Args) {
         if matches!(orig.end, End::Budget) {
             sum.count("budget_exhausted");
             continue;
+        }
+        // the same statements on fewer lines
+        if let Some(jsrc) = joined_lines(&src) {
+            evaluations += 1;
+            sum.count("rule_joined-lines");
+            let one_line = format!("{}  ==>[joined-lines]  {}", src.replace('\n', " | "), jsrc.replace('\n', " | "));
+            match run_program(&jsrc, &RunOpts { budget: 60_000, ..Default::default() }) {
+                Outcome::Ran(r) => {
+                    if !matches!(r.end, End::Budget) {
+                        if let Some(diff) = same_behaviour(&orig, &r) {
+                            sum.violation(ImplViolation { key: "rewrite-changes-behaviour:joined-lines".into(), input: one_line, expected: "same output, same end, same values in the original's variables".into(), observed: diff });
+                        }
+                    }
+                }
+                other => {
+                    sum.violation(ImplViolation { key: "rewrite-rejected:joined-lines".into(), input: one_line, expected: "accepted like the original".into(), observed: format!("{:?}", other).chars().take(300).collect() });
+                }
+            }
         }
         let mut fresh = 0usize;
         let mut vs = rewrites(&prog, &mut fresh);
@@ -389,6 +443,25 @@ pub fn run(args: &Args) {
             }
         }
     }
+    // scenarios: a loop header whose expressions call a function that loops itself (output known by construction)
+    let looping = "FUNCTION F% (N%)\nFOR J% = 1 TO 3\nNEXT\nF% = N%\nEND FUNCTION\n";
+    for (name, head, expected) in [
+        ("for-step-calls-looping-function", "FOR I% = 1 TO 10 STEP F%(2)", " 1  3  5  7  9 \r\n"),
+        ("for-upper-calls-looping-function", "FOR I% = 1 TO F%(5)", " 1  2  3  4  5 \r\n"),
+        ("for-lower-calls-looping-function", "FOR I% = F%(1) TO 5 STEP 2", " 1  3  5 \r\n"),
+        ("for-all-call-looping-function", "FOR I% = F%(1) TO F%(7) STEP F%(3)", " 1  4  7 \r\n"),
+    ] {
+        let src = format!("{}\nPRINT I%;\nNEXT\nPRINT\nEND\n{}", head, looping);
+        evaluations += 1;
+        sum.count("scenarios");
+        let observed = match run_program(&src, &RunOpts { budget: 30_000, ..Default::default() }) {
+            Outcome::Ran(r) => format!("{:?} end {:?}", String::from_utf8_lossy(&r.stdout), r.end),
+            other => format!("{:?}", other).chars().take(200).collect(),
+        };
+        if observed != format!("{:?} end Ok", expected) {
+            sum.violation(ImplViolation { key: format!("scenario:{}", name), input: src.replace('\n', " | "), expected: format!("{:?}", expected), observed });
+        }
+    }
     // the repository's own programs, rewritten textually
     let mut corpus_pairs = 0usize;
     for (origin, text) in corpus() {
@@ -431,6 +504,6 @@ pub fn run(args: &Args) {
     sum.write(
         &args.out,
         evaluations,
-        "the nesting matrix (every loop-branch-loop triple over five loop kinds with different bounds and steps and five branch positions, plus a seeded sample of the other triples; all 1000 triples in the thorough tier) and every generated core program (nesting depth 2-3, all loop kinds incl. negative and run-time computed STEP, SELECT with 0-3 CASE blocks) x every applicable site x every rule {for-as-while, for-step-1, while-as-do-while, do-while-as-while, do-until-as-do-while-not, select-as-if-chain, block-if-as-single-line-if, body-in-if-true} (bounded, seeded selection of sites per program); original and rewritten program run on the real implementation and compared on output, end (error code) and the original's variables; each rewritten program also compared with the reference semantics in Coq. Repository programs (fixtures + test literals) rewritten textually by for-step-1 and while-as-do-while. Non-trivial = distinct rewritten programs.",
+        "the nesting matrix (every loop-branch-loop triple over five loop kinds with different bounds and steps and five branch positions, plus a seeded sample of the other triples; all 1000 triples in the thorough tier) and every generated core program (nesting depth 2-3, all loop kinds incl. negative and run-time computed STEP, SELECT with 0-3 CASE blocks) x every applicable site x every rule {for-as-while, for-step-1, while-as-do-while, do-while-as-while, do-until-as-do-while-not, select-as-if-chain, block-if-as-single-line-if, body-in-if-true} (bounded, seeded selection of sites per program), and every program with its plain statement lines joined by ' : ' on one line (several loops starting on one source line); original and rewritten program run on the real implementation and compared on output, end (error code) and the original's variables; each rewritten program also compared with the reference semantics in Coq. Four scenarios: FOR headers whose bound / step expressions call a function that loops itself. Repository programs (fixtures + test literals) rewritten textually by for-step-1 and while-as-do-while. Non-trivial = distinct rewritten programs.",
     );
 }
